@@ -16,7 +16,7 @@ theorem cdouble_strict (t rest : List Char) (v : Rat) (h : strictNumber t = some
   obtain ⟨h1, h2, h3⟩ := scan_strict t rest v h hs
   have hne := strict_ne_nil t v h
   unfold cdouble scanDouble
-  rw [if_neg (by cases t with | nil => exact absurd rfl hne | cons a as => simp), if_pos h1, h2, h3]
+  rw [if_neg (by cases t with | nil => exact absurd rfl hne | cons a as => simp), strict_not_inf t rest v h, if_pos h1, h2, h3]
 
 theorem stops_nil : Stops [] := by intro c hc; simp at hc
 
@@ -121,15 +121,25 @@ theorem join_split (s : List Char) : joinBlank (IterSpec.splitOn ' ' s) = s := b
           rw [joinBlank_cons _ _ (by simp)] at ih ⊢
           rw [List.cons_append, ih]
 
+theorem infScan_space (x : List Char) : infScan (' ' :: x) = infScan x := by
+  have hd : dropSpace (' ' :: x) = dropSpace x := by simp [dropSpace, isSpace]
+  unfold infScan numStart
+  rw [hd]
+
 theorem cdouble_space (x : List Char) (v : Rat) (r : List Char) (h : cdouble x = .ok v r) :
     cdouble (' ' :: x) = .ok v r := by
   unfold cdouble at h ⊢
   split at h
   · cases h
-  · rw [if_neg (by simp), scanDouble_space]
-    cases hq : scanDouble x with
-    | none => rw [hq] at h; simp only [] at h; split at h <;> cases h
-    | some p => rw [hq] at h; exact h
+  · rw [if_neg (by simp), infScan_space, scanDouble_space]
+    cases hi : infScan x with
+    | some p => rw [hi] at h; exact h
+    | none =>
+      rw [hi] at h
+      simp only [] at h ⊢
+      cases hq : scanDouble x with
+      | none => rw [hq] at h; simp only [] at h; split at h <;> cases h
+      | some p => rw [hq] at h; exact h
 
 /-- a blank-separated list of number tokens is read number by number -/
 theorem nums_join (toks : List (List Char)) (vs : List Rat) (hne : toks ≠ [])
